@@ -46,6 +46,18 @@ CLAIMED = {
                      "resolution of strategy hooks, must-pass-through (reset after re-mark) on the CFG",
         "design_ref": "DESIGN.md section 3, C05",
     },
+    "C13": {
+        "text": "Decides structural clauses D1-D5 of C13 on the driver loop and the error estimators: exactly one history entry per "
+                "evaluation before any stop test; the two documented stop conditions as normalised relations between the error and "
+                "point count OF THIS ITERATION and the caller's limits (operands identified by dataflow origin, so <= vs <, wrong "
+                "operand, stale count are caught while renamings / flipped comparisons are not), evaluated before refining; refine "
+                "only inside the loop; every error estimate's returned expression is >= 0 in the sign domain; the three global error "
+                "estimates share the None / absolute / relative-to-reference structure. Monotone point counts and count == distinct "
+                "evaluations are NOT decided.",
+        "technique": "CFG dominance and must-pass-through, guard sets as normalised comparison terms with reaching-definition "
+                     "resolution, sign abstract interpretation of return expressions, sibling agreement modulo renaming",
+        "design_ref": "DESIGN.md section 3, C13",
+    },
     "C14": {
         "text": "Decides structural clauses D1-D4 of C14: the event language of continue_adaptive_refinement allows evaluate-evaluate "
                 "adjacency across a stop/continue, which is harmless only for strategies with the reset discipline (violated for "
